@@ -531,7 +531,11 @@ def execute(spec, loop_seed=None, horizon=None, quiescent=None, run_on=1000.0,
             if quiescent is not None:
                 loop.on_quiescent = lambda l, nxt: quiescent(trace, reg, l, nxt)
             try:
-                if spec.get('entry') == 'co_run':
+                entry = spec.get('entry')
+                if isinstance(entry, dict) and 'wait_for' in entry:
+                    # the caller gives up: co_run() is cancelled from outside
+                    value = loop.run_until_complete(asyncio.wait_for(top.co_run(), entry['wait_for']))
+                elif entry == 'co_run':
                     value = loop.run_until_complete(top.co_run())
                 else:
                     value = top.run()
